@@ -274,6 +274,11 @@ func roundtripPlan(sig, tier string) []Unit {
 				units = append(units, Unit{Opts: def, Mon: mon, Tag: "mixed-signals", History: h})
 			}
 		}
+		for _, h := range sharedAttrHistories() {
+			if h[0].Sig == sig || h[1].Sig == sig {
+				units = append(units, Unit{Opts: def, Mon: mon, Tag: "mixed-shared-attrs", History: h})
+			}
+		}
 	}
 	// one key, a different value type under each parent
 	{
@@ -437,6 +442,28 @@ func mixLetters(sig string, rotStep int) []Letter {
 	for _, lv := range []string{"item", "resource", "scope", "sub"} {
 		for r := 0; r < NumMixValues; r += rotStep {
 			out = append(out, Letter{Sig: sig, Mix: &Mix{Level: lv, Rot: r}})
+		}
+	}
+	return out
+}
+
+// sharedAttrHistories: two signals alternate on one producer while their
+// resource (and scope) attributes need different schemas: the shared
+// RESOURCE_ATTRS / SCOPE_ATTRS payload types go schema A -> B -> A -> B.
+func sharedAttrHistories() [][]Letter {
+	var out [][]Letter
+	res := []int{1, 2, 7, 10, 11}
+	for _, x := range sigs() {
+		for _, y := range sigs() {
+			if x == y {
+				continue
+			}
+			for i, r1 := range res {
+				r2 := res[(i+1)%len(res)]
+				out = append(out, []Letter{one(x, r1, 1, 1), one(y, r2, 1, 1), one(x, r1, 1, 1), one(y, r2, 1, 1), one(x, r2, 1, 1)})
+				// scope attributes too (scope archetype 5 carries a string attribute)
+				out = append(out, []Letter{one(x, r1, 5, 1), one(y, r2, 1, 1), one(x, r1, 5, 1), one(y, 0, 5, 1), one(x, r2, 1, 1)})
+			}
 		}
 	}
 	return out
@@ -711,6 +738,25 @@ func framingPlan(tier string) []Unit {
 		}
 		for _, h := range histories(mixed, depth) {
 			units = append(units, Unit{Opts: def, Mon: mon, Tag: "mixed", History: h})
+		}
+		for _, h := range sharedAttrHistories() {
+			units = append(units, Unit{Opts: def, Mon: mon, Tag: "mixed-shared-attrs", History: h})
+		}
+		// one refused allocation inside the IPC write of any record of any batch, then two more batches
+		for _, sig := range sigs() {
+			a := historyAlphabet(sig, false)
+			for _, z := range []int{-1, 0} {
+				o := def
+				o.Zstd = z
+				for _, h := range histories(a[:4], 2) {
+					for step := 0; step < 3; step++ {
+						for rec := 0; rec < 4; rec++ {
+							hh := append(append([]Letter{}, h...), a[1], a[2])
+							units = append(units, Unit{Opts: o, Mon: mon, Tag: "alloc-fault-" + sig, History: hh, Fault: &ProdFault{Step: step, Record: rec}})
+						}
+					}
+				}
+			}
 		}
 		// per signal: the statistics call between any two batches of the history alphabet
 		for _, sig := range sigs() {
